@@ -9,7 +9,8 @@
    constant stream), `c` = the context is already cancelled.
    `somes asg` lists the paths of the participating clients. *)
 From ST Require Import Base.Ints Base.Sorting Model.NtpTime Model.Ftm Model.Sample Model.PathAssign Model.PathOracle Model.Pather
-  Proofs.SampleProofs Proofs.PathAssignProofs Proofs.PathOracleProofs Proofs.ReservoirProofs Proofs.ReservoirSetProofs Proofs.C15Main Proofs.PatherProofs.
+  Proofs.SampleProofs Proofs.PathAssignProofs Proofs.PathOracleProofs Proofs.ReservoirProofs Proofs.ReservoirSetProofs Proofs.C15Main Proofs.PatherProofs
+  Proofs.AssignReservoirProofs Proofs.ReservoirBoundProofs Proofs.RoundCutProofs.
 From Coq Require Import Sorting.Permutation Sorting.Sorted.
 Open Scope Z_scope.
 
@@ -79,25 +80,27 @@ Proof. exact round_offset_none. Qed.
 Print Assumptions C15_no_measurement_error.
 
 (* The property oracle holds for the model on ALL inputs: every round the model can produce, for all client
-   states, offered paths, tapes, peer behaviours and filter values, is accepted by C15_round_ok. *)
-Theorem C15_oracle_holds_for_model : forall fps cs hasfs d tape mss vss obs off rest,
+   states (incl. clients whose previous exchange is 3 s old or older), offered paths, tapes, peer behaviours
+   (conformant, basic-mode, rejected reply, no reply at all) and filter values, with a live or an already
+   cancelled context (c), is accepted by C15_round_ok. *)
+Theorem C15_oracle_holds_for_model : forall c fps cs hasfs d tape mss vss obs off rest,
   length hasfs = length cs -> Z.of_nat (length fps) <= max_i64 -> words tape -> word d ->
-  run_round fps cs d tape mss vss = ROk obs off rest ->
+  run_round_c c fps cs d tape mss vss = ROk obs off rest ->
   C15_round_ok fps (to_cobs_list hasfs cs obs) 0 off = true.
 Proof. exact model_round_ok. Qed.
 Print Assumptions C15_oracle_holds_for_model.
 
-Theorem C15_oracle_holds_for_model_nomeas : forall fps cs hasfs d tape mss vss obs rest,
+Theorem C15_oracle_holds_for_model_nomeas : forall c fps cs hasfs d tape mss vss obs rest,
   length hasfs = length cs -> Z.of_nat (length fps) <= max_i64 -> words tape -> word d ->
-  run_round fps cs d tape mss vss = RNoMeas obs rest ->
+  run_round_c c fps cs d tape mss vss = RNoMeas obs rest ->
   C15_round_ok fps (to_cobs_list hasfs cs obs) 4 0 = true
   /\ Forall (fun o => co_vals o = []) (participants obs).
 Proof. exact model_nomeas_ok. Qed.
 Print Assumptions C15_oracle_holds_for_model_nomeas.
 
-Theorem C15_oracle_holds_for_model_nopath : forall fps cs hasfs d tape mss vss post resets rest,
+Theorem C15_oracle_holds_for_model_nopath : forall c fps cs hasfs d tape mss vss post resets rest,
   length hasfs = length cs ->
-  run_round fps cs d tape mss vss = RNoPath post resets rest ->
+  run_round_c c fps cs d tape mss vss = RNoPath post resets rest ->
   C15_round_ok fps (map (fun hs : bool * cstate => idle_cobs (fst hs) (snd hs)) (combine hasfs cs)) 1 0 = true
   /\ resets = map (fun _ => true) cs.
 Proof. exact model_nopath_ok. Qed.
@@ -231,6 +234,110 @@ Theorem C15_reservoir_run_picks : forall k js i res, draws_ok (Z.of_nat i) js ->
 Proof. exact run_picks. Qed.
 Print Assumptions C15_reservoir_run_picks.
 
+(* ---- the assignment IS the reservoir: kept paths stay, the clients without a path get, in slot order, the
+   paths ps1[r_0], ps1[r_1], ... where ps1 is what the sticky loop left of the offered paths and
+   r = run k (seq 0 k) k js is the reservoir over candidate indices after the draws js of this round
+   (k = min(free clients, |ps1|); j_i in [0, i] for i = k .. |ps1|-1).  C15_reservoir_uniform and
+   C15_reservoir_words_bound therefore speak about the assignment. *)
+Theorem C15_assign_is_reservoir : forall fps cs c d tape asg resets rest,
+  Z.of_nat (length fps) <= max_i64 -> words tape -> word d ->
+  assign fps cs c d tape = AOk asg resets rest ->
+  exists js,
+    let sps := fst (sticky fps cs (seq 0 (length fps))) in
+    let ps1 := snd (sticky fps cs (seq 0 (length fps))) in
+    let k := Nat.min (length sps - count_some sps) (length ps1) in
+    length js = (length ps1 - k)%nat /\ draws_ok (Z.of_nat k) js
+    /\ asg = fill sps (map (fun t => nth t ps1 O) (run k (seq 0 k) k (map Z.to_nat js))).
+Proof. exact assign_is_reservoir. Qed.
+Print Assumptions C15_assign_is_reservoir.
+
+Theorem C15_sample_is_reservoir : forall kz arr c d tape k' picks rest,
+  Z.of_nat (length arr) <= max_i64 -> words tape -> word d ->
+  sample kz (Z.of_nat (length arr)) c d tape = Ok (k', picks, rest) ->
+  exists js, let k := Z.to_nat k' in
+    length js = (length arr - k)%nat /\ draws_ok k' js /\ picks = init_picks k' ++ draws_picks k' k' js
+    /\ k = Nat.min (Z.to_nat kz) (length arr)
+    /\ firstn k (fold_left apply_pick picks arr)
+       = map (fun t => nth t arr O) (run k (seq 0 k) k (map Z.to_nat js)).
+Proof. exact sample_is_reservoir. Qed.
+Print Assumptions C15_sample_is_reservoir.
+
+(* The composed deviation from uniform with the real draws.  An accepted-word vector [x_k; ...; x_(n-1)] (x_i a
+   32-bit word accepted by the draw below i+1; `wvectors`, characterised by C15_reservoir_wvectors_spec) gives
+   the draws x_i mod (i+1).  Under uniform words, the probability of a k-subset is proportional to the number of
+   accepted-word vectors that select it.  For any two k-subsets S, T of n <= MaxInt32 candidates these numbers
+   differ at most by the factor prod_{i=k}^{n-1} Q_i / (Q_i - 1), Q_i = 2^32 / (i+1): the product of the per-draw
+   ratios of C15_randint_class_sizes (NOT a single 2^-31); for n <= 65536 it is at most (65536/65535)^(n-k). *)
+Theorem C15_reservoir_words_bound : forall (k n : nat) (S T : list nat),
+  (1 <= k <= n)%nat -> Z.of_nat n <= max_i32 ->
+  NoDup S -> length S = k -> (forall x, In x S -> (x < n)%nat) ->
+  NoDup T -> length T = k -> (forall x, In x T -> (x < n)%nat) ->
+  let count U := length (filter (fun xs => same_set U (run k (seq 0 k) k (draws_of k xs))) (wvectors k (n - k))) in
+  (count S * prod_f qlo k (n - k) <= count T * prod_f qhi k (n - k))%nat.
+Proof. exact reservoir_words_bound. Qed.
+Print Assumptions C15_reservoir_words_bound.
+
+Theorem C15_reservoir_words_bound_small : forall (k n : nat) (S T : list nat),
+  (1 <= k <= n)%nat -> Z.of_nat n <= 65536 ->
+  NoDup S -> length S = k -> (forall x, In x S -> (x < n)%nat) ->
+  NoDup T -> length T = k -> (forall x, In x T -> (x < n)%nat) ->
+  let count U := length (filter (fun xs => same_set U (run k (seq 0 k) k (draws_of k xs))) (wvectors k (n - k))) in
+  Z.of_nat (count S) * 65535 ^ Z.of_nat (n - k) <= Z.of_nat (count T) * 65536 ^ Z.of_nat (n - k).
+Proof. exact reservoir_words_bound_small. Qed.
+Print Assumptions C15_reservoir_words_bound_small.
+
+(* wvectors i m = the vectors of m words, the t-th accepted by the draw below i+t+1; words_for m j = the accepted
+   words of the draw below m with residue j, each once *)
+Theorem C15_reservoir_wvectors_spec : forall m i xs, (1 <= i)%nat -> Z.of_nat (i + m) <= max_i32 ->
+  In xs (wvectors i m) <-> length xs = m /\ accepted i xs.
+Proof. exact wvectors_spec. Qed.
+Print Assumptions C15_reservoir_wvectors_spec.
+
+Theorem C15_words_for_spec : forall m j x, 2 <= m <= max_i32 -> 0 <= j < m ->
+  (In x (words_for m j) <-> (word x /\ thresh31 m < x /\ x mod m = j)) /\ NoDup (words_for m j).
+Proof. intros. split; [apply words_for_spec; assumption|apply words_for_NoDup; lia]. Qed.
+Print Assumptions C15_words_for_spec.
+
+(* the 64-bit branch of RandIntn (randInt63) is not used for bounds up to MaxInt32: a round with at most
+   MaxInt32 - 1 offered paths draws through randInt31 only (a slice of 2^31 paths does not fit any machine) *)
+Theorem C15_branch31 : forall fuel k i c d tape,
+  0 <= i -> i + Z.of_nat fuel <= max_i32 -> sample_loop fuel k i c d tape = sample_loop31 fuel k i c d tape.
+Proof. exact sample_loop_branch31. Qed.
+Print Assumptions C15_branch31.
+
+(* ---- the context ends during the collection (ctx.Done in collectMeasurements) ----
+   `arrived`: what the participants deliver, in arrival order; the collection is cut after `cut` deliveries. *)
+Theorem C15_ftm_cut : forall arrived cut,
+  round_offset_cut arrived cut = ftm (measured (firstn cut arrived))
+  /\ (round_offset_cut arrived cut = None <-> measured (firstn cut arrived) = [])
+  /\ (length (measured (firstn cut arrived)) <= length arrived)%nat
+  /\ ((length arrived <= cut)%nat -> round_offset_cut arrived cut = round_offset arrived).
+Proof.
+  intros. split; [reflexivity|]. split; [apply round_offset_cut_none|]. split; [apply measured_fits|apply round_offset_cut_all].
+Qed.
+Print Assumptions C15_ftm_cut.
+
+Theorem C15_ftm_cut_order_free : forall a a' cut cut',
+  Permutation (firstn cut a) (firstn cut' a') -> round_offset_cut a cut = round_offset_cut a' cut'.
+Proof. exact round_offset_cut_order_free. Qed.
+Print Assumptions C15_ftm_cut_order_free.
+
+(* those that are cut off have no measurement (a path that never answers: its client waits for the context that
+   ends the collection): the result is that of the complete collection - the rounds with silent paths *)
+Theorem C15_ftm_cut_silent : forall arrived cut,
+  Forall (fun o => o = None) (skipn cut arrived) -> round_offset_cut arrived cut = round_offset arrived.
+Proof. exact round_offset_cut_silent. Qed.
+Print Assumptions C15_ftm_cut_silent.
+
+(* the error of the random generator is the context's error: it needs a context that is already cancelled; then
+   nobody has probed and the clients without a kept path have been reset *)
+Theorem C15_error_needs_cancelled_context : forall c fps cs d tape mss vss post resets,
+  Z.of_nat (length fps) <= max_i32 ->
+  run_round_c c fps cs d tape mss vss = RErr post resets ->
+  c = true /\ post = post_reset cs resets.
+Proof. exact round_err_cancelled. Qed.
+Print Assumptions C15_error_needs_cancelled_context.
+
 (* ---- where the offered paths come from: the Pather (net/scion/pather.go, Model/Pather.v) ----
    A path is (identity, fingerprint); `answers` describes the daemon at a refresh, dstIAs the destinations the
    Pather was started with (timeservice.go: one entry per configured SCION server and peer).
@@ -275,18 +382,18 @@ Proof. exact pather_oracle_of_round_oracle. Qed.
 Print Assumptions C15_pather_oracle_of_round_oracle.
 
 (* ... hence every round of the model behind a Pather, for all states, tapes, peers and filter values. *)
-Theorem C15_pather_oracle_holds_for_model : forall st q truth cs hasfs d tape mss vss,
+Theorem C15_pather_oracle_holds_for_model : forall c st q truth cs hasfs d tape mss vss,
   pather_paths st q = truth -> NoDup (map fst truth) ->
   length hasfs = length cs -> Z.of_nat (length truth) <= max_i64 -> words tape -> word d ->
-  (forall obs off rest, pather_round st q cs d tape mss vss = ROk obs off rest ->
+  (forall obs off rest, pather_round c st q cs d tape mss vss = ROk obs off rest ->
      C15_pather_round_ok truth (map (hops_out (map fst truth)) (to_cobs_list hasfs cs obs)) 0 off = true)
-  /\ (forall obs rest, pather_round st q cs d tape mss vss = RNoMeas obs rest ->
+  /\ (forall obs rest, pather_round c st q cs d tape mss vss = RNoMeas obs rest ->
      C15_pather_round_ok truth (map (hops_out (map fst truth)) (to_cobs_list hasfs cs obs)) 4 0 = true)
-  /\ (forall post resets rest, pather_round st q cs d tape mss vss = RNoPath post resets rest ->
+  /\ (forall post resets rest, pather_round c st q cs d tape mss vss = RNoPath post resets rest ->
      C15_pather_round_ok truth (map (hops_out (map fst truth))
         (map (fun hs : bool * cstate => idle_cobs (fst hs) (snd hs)) (combine hasfs cs))) 1 0 = true).
 Proof.
-  intros st q truth cs hasfs d tape mss vss Ho Hn Hh Hm Hw Hd. repeat split; intros.
+  intros c st q truth cs hasfs d tape mss vss Ho Hn Hh Hm Hw Hd. repeat split; intros.
   - eapply pather_round_ok; eauto.
   - eapply pather_round_nomeas_ok; eauto.
   - eapply pather_round_nopath_ok; eauto.
@@ -294,7 +401,7 @@ Qed.
 Print Assumptions C15_pather_oracle_holds_for_model.
 
 (* ---- the hypotheses are satisfiable; the functions compute ---- *)
-Definition ex_client (il : bool) (fp : Z) : cstate := {| cs_en := true; cs_ref := il; cs_il := il; cs_fp := fp |}.
+Definition ex_client (il : bool) (fp : Z) : cstate := {| cs_en := true; cs_ref := il; cs_il := il; cs_fp := fp; cs_old := false |}.
 
 (* three clients: the first two in interleaved mode on fingerprint 7 / 0 (the empty fingerprint), the third
    fresh; offered: fingerprints [5; 0; 7; 7]; tape [0; 8]: the word 0 is rejected for the draw below 2, the word 8
@@ -355,7 +462,7 @@ Example C15_example_pather_dup :
   let st := pather_update [] true [7; 7] ans in
   let cs := [fresh_client false; fresh_client false; fresh_client true] in
   pather_paths st 7 = [(0, 5)]
-  /\ match pather_round st 7 cs 4294967295 [] [] [[11]; [22]; [33]] with
+  /\ match pather_round false st 7 cs 4294967295 [] [] [[11]; [22]; [33]] with
      | ROk obs off _ =>
          map co_path obs = [Some 0%nat; None; None] /\ off = 11
          /\ C15_pather_round_ok (daemon_paths ans 7)
@@ -364,6 +471,25 @@ Example C15_example_pather_dup :
      end
   (* the oracle rejects the same path handed to two clients *)
   /\ C15_pather_round_ok [(0, 5)]
-       [ {| ob_ilv := false; ob_fp := 0; ob_filter := true; ob_hops := [0]; ob_resets := 1; ob_first := 0; ob_vals := [11] |};
-         {| ob_ilv := false; ob_fp := 0; ob_filter := true; ob_hops := [0]; ob_resets := 1; ob_first := 0; ob_vals := [22] |} ] 0 16 = false.
+       [ {| ob_ilv := false; ob_fp := 0; ob_filter := true; ob_hops := [0]; ob_resets := 1; ob_first := 0; ob_vals := [11]; ob_old := false |};
+         {| ob_ilv := false; ob_fp := 0; ob_filter := true; ob_hops := [0]; ob_resets := 1; ob_first := 0; ob_vals := [22]; ob_old := false |} ] 0 16 = false.
 Proof. vm_compute. repeat split; reflexivity. Qed.
+
+(* after 3 s without an exchange a client in interleaved mode keeps its path without a reset and starts with a
+   basic-mode request; a path that never answers ends its client's round after one request *)
+Example C15_example_old_and_silent :
+  let s := age_client (ex_client true 7) in
+  run_round [7] [s] 4294967295 [] [[PN; PN; PN]] [[5; 6; 7]]
+  = ROk [{| co_path := Some 0%nat; co_reset := false; co_reqs := [false; true]; co_vals := [5; 6];
+            co_post := ex_client true 7 |}] 6 []
+  /\ run_round [7] [ex_client true 7] 4294967295 [] [[PS; PN; PN]] [[5; 6; 7]]
+  = RNoMeas [{| co_path := Some 0%nat; co_reset := false; co_reqs := [true]; co_vals := []; co_post := ex_client true 7 |}] []
+  /\ run_round_c true [7; 8] [fresh_client true] 4294967295 [0] [] [] = RErr [fresh_client true] [true].
+Proof. vm_compute. repeat split; reflexivity. Qed.
+
+(* three candidates, one slot: the subsets {0}, {1}, {2} are selected by 2^32/2 * 2^32/3 accepted-word vectors
+   give or take the class sizes; the counting functions compute on a small instance of the draw vectors *)
+Example C15_example_bound_factors : qhi 1 = Z.to_nat 2147483648 /\ qlo 1 = Z.to_nat 2147483647
+  /\ qhi 2 = Z.to_nat 1431655765 /\ qlo 2 = Z.to_nat 1431655764.
+Proof. unfold qhi, qlo. repeat split; reflexivity. Qed.
+
